@@ -441,13 +441,16 @@ def encPayload (f : Fmt) : Data → Res (List Nat)
   | .i64 xs => if f.endian == 2 then .ok (unwords 8 true xs)
                else if f.endian == 1 then .ok (unwords 8 false xs) else .pan .nilDeref
 
+/-- the timestamp-with-unit TLV written by `Bytes()`: 64 bits, exponent -11, the two unit words, the counter -/
+def encTS : Option TS → List Nat
+  | none => []
+  | some t => [0x13, 2, 64, 0xf5] ++ beBytes 2 t.num ++ beBytes 2 t.den ++ beBytes 8 t.t
+
 /-- `Bytes()` -/
 def encode (p : Packet) : Res (List Nat) :=
   let hdr := [p.version, p.hl] ++ beBytes 2 p.pl ++ beBytes 4 magic ++ beBytes 4 p.src ++ beBytes 4 p.seq
   let off := [0x23, 1, 0, 0] ++ beBytes 4 p.offset
-  let ts := match p.ts with
-    | none => []
-    | some t => [0x13, 2, 64, 0xf5] ++ beBytes 2 t.num ++ beBytes 2 t.den ++ beBytes 8 t.t
+  let ts := encTS p.ts
   match p.data, p.shape, p.format with
   | .none, _, _ => .ok (hdr ++ off ++ ts)
   | _, none, _ => .ok (hdr ++ off ++ ts)
